@@ -79,6 +79,7 @@ def design_desc(draw):
                      "dom": PICK(draw, doms), "anon": draw(BOOL), "inst": draw(BOOL), "mem": draw(INT(0, 2)) == 0})
     for sub in subs:
         sub["rawmem"] = draw(INT(0, 2)) == 0
+        sub["inst_kept"] = draw(BOOL)
         if draw(INT(0, 2)) == 0:
             kd, dom = "kd", sub["dom"]
             mp = PICK(draw, [[[kd, "kx"]], [[kd, dom]], [[kd, dom], [dom, kd]], [[kd, dom], [dom, "kx"]], [[dom, kd]]])
@@ -141,6 +142,7 @@ def rtlil_body(ctx, batch):
         if any(s["inst"] for s in desc["subs"]): keys.append("rtlil:instance-with-clocksignal")
         if any(s["mem"] for s in desc["subs"]): keys.append("rtlil:memory")
         if any(s.get("rawmem") for s in desc["subs"]): keys.append("rtlil:kept-memory-primitive")
+        if any(s["inst"] and s.get("inst_kept") for s in desc["subs"]): keys.append("rtlil:component-returning-a-kept-instance")
         if any(s.get("keeper") for s in desc["subs"]): keys.append("rtlil:renamer-around-kept-clock-domain")
         if any(s.get("keeper") and renamer_revisits(s["keeper"]["map"]) for s in desc["subs"]):
             keys.append("rtlil:renamer-map-revisits-a-name")
@@ -302,5 +304,6 @@ def parts(tier):
 
 REQUIRED = ["rtlil:design", "rtlil:>=2-implicit-domains", "rtlil:name-clash", "rtlil:anonymous-submodule",
             "rtlil:instance-with-clocksignal", "rtlil:memory", "rtlil:renamer-around-kept-clock-domain",
-            "rtlil:renamer-map-revisits-a-name", "rtlil:kept-memory-primitive", "sim:history", "sim:partial-run-before-reset",
+            "rtlil:renamer-map-revisits-a-name", "rtlil:kept-memory-primitive",
+            "rtlil:component-returning-a-kept-instance", "sim:history", "sim:partial-run-before-reset",
             "sim:with-processes", "sim:memory-written", "plan:icestorm", "plan:trellis", "plan:apicula"]
